@@ -24,7 +24,7 @@ def verdict(path):
 
 tries = {}
 for p in glob.glob("/tmp/wt/try-S-*.log"):
-    m = re.match(r"try-(S-C\d\d-[ABCD])-(C\d\d)(-\w+)?\.log", os.path.basename(p))
+    m = re.match(r"try-(S-C\d\d-[ABCDE])-(C\d\d)(-\w+)?\.log", os.path.basename(p))
     if m:
         tries[(m.group(1), m.group(2), m.group(3) or "")] = verdict(p)
 official = {}
@@ -69,6 +69,18 @@ with open("/verif/selftest/RESULTS.md", "w") as f:
         ndd += fin[0] == "DETECTED"
         f.write("| %s | %s | %s | %s | %s |\n" % (s, prop, base, fin[0], fin[1].replace("|", "/")[:140]))
     f.write("\nfinal: detected %d / %d\n\n" % (ndd, len(dseeds)))
+    f.write("## Round E (five more changes, last hours of the third session)\n\n"
+            "As round D. `after round D`: the checks as committed after round D; `final`: the committed checks.\n\n"
+            "| seed | check | after round D | final | first violation (final) |\n|---|---|---|---|---|\n")
+    eseeds = sorted(set(k[0] for k in tries if k[0].endswith("-E")))
+    nde = 0
+    for s in eseeds:
+        prop = "C" + s[3:5]
+        base = tries.get((s, prop, "-base"), ("?", ""))[0]
+        fin = tries.get((s, prop, "-new2")) or tries.get((s, prop, "-new")) or ("?", "")
+        nde += fin[0] == "DETECTED"
+        f.write("| %s | %s | %s | %s | %s |\n" % (s, prop, base, fin[0], fin[1].replace("|", "/")[:140]))
+    f.write("\nfinal: detected %d / %d\n\n" % (nde, len(eseeds)))
     f.write("## Rounds A and B (38 changes) against the final checks\n\n"
             "Seed applied to a scratch worktree, check run with `VERIF_REPO` (`selftest/try_seed.sh`); the sweep of the second\n"
             "session (seed applied to /repo) had detected 38 / 38.\n\n| seed | check | verdict | first violation |\n|---|---|---|---|\n")
